@@ -1,9 +1,13 @@
 """C18: computed calibration keypoints are valid for every data sample.
 
-Tie: real `premade_lib.compute_keypoints(...)` (+ compute_feature_keypoints / compute_label_keypoints /
-set_*_keypoints on small configs) vs `Tfl.Keypoints.computeKeypoints`.
+Tie: real `premade_lib.compute_keypoints(...)` vs `Tfl.Keypoints.computeKeypoints` (op `kp.compute`);
+real `compute_feature_keypoints` + `set_feature_keypoints` vs `Tfl.Keypoints.computeFeatureKeypoints` /
+`setFeatureKeypoints` (op `kp.features`); real `compute_label_keypoints` + `set_label_keypoints` vs
+`Tfl.Keypoints.computeLabelKeypoints` / `setLabelKeypoints` (op `kp.label`).
 Oracle: strictly increasing (>= 2 distinct clipped values), inside the clipped range, ends = clip
-bounds / extremes, count, accepted by PWLCalibration."""
+bounds / extremes, count, accepted by PWLCalibration - for compute_keypoints and for what the helpers
+return and store (judged on the compute_keypoints call their documentation prescribes: per-feature
+config fields, string labels = arange(n_classes) without weights, logits = [-2, 2])."""
 import itertools, warnings
 import numpy as np
 from fractions import Fraction
@@ -12,8 +16,12 @@ from common import *
 RULE = ("one PRNG drives: value arrays of 1-60 dyadic (k/8) numbers: heavy duplicates, 1-3 distinct values, skewed "
         "(powers of two), ranges, constant after clipping, all-default; weights none / ones / small ints with zeros "
         "/ dyadic / zero-weight runs at both ends (regression inputs of the fixed F-C18-b/e); clip_min, clip_max none / inside / outside the data; default_value "
-        "none / present / absent; num_keypoints 2-10; 'quantiles' and 'uniform'; 'mean' and 'sum'. Fillers on "
-        "1-3 feature configs and a label config. Non-trivial = >= 2 distinct clipped values; distinct = (mode, "
+        "none / present / absent; num_keypoints 2-10; 'quantiles' and 'uniform'; 'mean' and 'sum'; values and weights "
+        "handed over as float64 arrays or plain Python lists. Feature helper: 1-3 features (arrays, lists, int "
+        "lists / arrays) with shuffled configs (quantiles / uniform / given keypoints / categorical / no config), one "
+        "shared weight vector, add_missing on/off. Label helper: numeric labels (arrays, lists, ints), string / "
+        "bytes / object / boolean labels (1-7 classes) with or without weights, output_initialization a mode string "
+        "or a given list / tuple, logits on/off, output_min / output_max. Non-trivial = >= 2 distinct clipped values; distinct = (mode, "
         "weight kind, clip kind, k, #distinct bucket, result hash).")
 ASSUMPTIONS = [
     "values, weights and bounds are dyadic so float arithmetic on them is exact; np.linspace / np.interp / the "
@@ -98,7 +106,8 @@ def gen_case(rng):
   return dict(kind=kind, vals=[fr(v) for v in vals], k=rng.randint(2, 10),
               mode=rng.choice(["quantiles", "quantiles", "uniform"]), cmin=opt(cmin), cmax=opt(cmax),
               dflt=opt(dflt), ws=None if ws is None else [fr(w) for w in ws], wk=wk, ck=ck,
-              red=rng.choice(["mean", "sum"]))
+              red=rng.choice(["mean", "sum"]), vform=rng.choice(["array", "array", "list"]),
+              wform=rng.choice(["array", "array", "list"]))
 
 
 def unopt(s):
@@ -107,8 +116,9 @@ def unopt(s):
 
 def real_compute(case):
   from tensorflow_lattice.python import premade_lib
-  vals = np.array([float(Fraction(v)) for v in case["vals"]], dtype=np.float64)
-  ws = None if case["ws"] is None else np.array([float(Fraction(w)) for w in case["ws"]], dtype=np.float64)
+  # values / weights as a float64 array or as a plain Python list (fixed F-C18-g)
+  vals = as_input(case["vals"], case.get("vform", "array"))
+  ws = None if case["ws"] is None else as_input(case["ws"], case.get("wform", "array"))
   f = lambda s: None if unopt(s) is None else float(unopt(s))
   try:
     with warnings.catch_warnings():
@@ -198,13 +208,15 @@ def same(real, model, mode):
   return all(close(r, m, scale, 1e-12 if mode == "uniform" else 0.0, 0.0) for r, m in zip(real, model))
 
 
-def oracle(ctx, case, out, err, dist, red, cls, fn="compute_keypoints"):
+def oracle(ctx, case, out, err, dist, red, cls, fn="compute_keypoints", record=None):
+  """`case` = the compute_keypoints case judged; `record` = the (helper) case to store for the replay"""
   import tensorflow_lattice as tfl
   key = dict(fn=fn, mode=case["mode"], weighted=case["ws"] is not None, cls=cls)
+  judged, case = case, (case if record is None else record)
+  k = judged["k"]
   if err is not None:
     ctx.fail("raises", key, case, err)
     return
-  k = case["k"]
   kp = [Fraction(v) for v in out]
   if any(v != v or v in (float("inf"), float("-inf")) for v in out):
     ctx.fail("finite", key, case, out)
@@ -215,12 +227,12 @@ def oracle(ctx, case, out, err, dist, red, cls, fn="compute_keypoints"):
     ctx.fail("within_range", key, case, out, "range [%s, %s]" % (dist[0], dist[-1]))
   if kp and dist and (kp[0] != dist[0] or kp[-1] != dist[-1]):
     ctx.fail("ends", key, case, out, "expected ends %s, %s" % (dist[0], dist[-1]))
-  if len(dist) >= k or case["mode"] == "uniform":
+  if len(dist) >= k or judged["mode"] == "uniform":
     if len(kp) != k:
       ctx.fail("count", key, case, out, "expected %d keypoints" % k)
   elif kp != dist:
     ctx.fail("count", key, case, out, "expected the %d distinct values" % len(dist))
-  if case["mode"] == "quantiles" and any(v not in dist for v in kp):
+  if judged["mode"] == "quantiles" and any(v not in dist for v in kp):
     ctx.fail("quantile_is_data_value", key, case, out)
   if len(dist) >= 2:
     try:
@@ -242,6 +254,7 @@ def run_compute(ctx, cases):
     for rc in regression_class(case, dist, red):
       ctx.count("regress:" + rc)
     ctx.count("distinct:%s" % ("<k" if len(dist) < case["k"] else ">=k"))
+    ctx.count("values_as:%s" % case.get("vform", "array"))
     if ties:
       ctx.count("model:exact_tie")
     if plateau == "1":
@@ -288,166 +301,423 @@ def run_compute(ctx, cases):
       ctx.disagree("compute_keypoints", case, out, None, "no tie direction reproduces the real output (ties at %r)" % ties)
 
 
-# ------------------------------------------------------------------ fillers
-def run_fillers(ctx, ncases):
+# ------------------------------------------------------------------ the feature / label helpers
+FINDING_CLASSES = ("all_zero_weights", "empty_after_default")
+
+
+def as_input(xs, form):
+  """a numeric sequence the way a caller may hand it over: float64 array, Python list of floats, list of ints /
+  int64 array (only when every entry is an integer)"""
+  xs = [Fraction(x) for x in xs]
+  if form == "list":
+    return [float(x) for x in xs]
+  if form == "intlist":
+    return [int(x) for x in xs]
+  if form == "intarray":
+    return np.array([int(x) for x in xs], dtype=np.int64)
+  return np.array([float(x) for x in xs], dtype=np.float64)
+
+
+def pick_form(rng, xs):
+  forms = ["array", "array", "list", "list"]
+  if all(Fraction(x).denominator == 1 for x in xs):
+    forms += ["intlist", "intarray"]
+  return rng.choice(forms)
+
+
+def spec_tok(spec):
+  return spec if isinstance(spec, str) else "given:" + frl([Fraction(v) for v in spec])
+
+
+def compute_case(vals, ws, red, k, mode, cmin, cmax, dflt, kind):
+  """the `compute_keypoints` case a helper call must reduce to (read off the helper's documentation)"""
+  return dict(kind=kind, vals=list(vals), ws=None if ws is None else list(ws), red=red, wk="filler", ck="filler",
+              k=k, mode=mode, cmin=cmin, cmax=cmax, dflt=dflt)
+
+
+def gen_weights(rng, m):
+  wk = rng.choice(["none", "none", "ints", "ints", "dyadic", "ones"])
+  if wk == "none":
+    return None
+  if wk == "ones":
+    return [fr(1)] * m
+  ws = [Fraction(rng.choice([0, 0, 1, 1, 2, 3, 4])) if wk == "ints" else Fraction(rng.randint(0, 16), 8)
+        for _ in range(m)]
+  return [fr(w) for w in ws]
+
+
+def gen_feature_case(rng):
+  m = rng.randint(1, 30)
+  ws = gen_weights(rng, m)
+  cfgs, feats = [], []
+  for j in range(rng.randint(1, 3)):
+    pool = [Fraction(rng.randint(-24, 24), rng.choice([1, 1, 8]))
+            for _ in range(rng.choice([1, 2, 3, 5, 8, 30]))]
+    vals = [rng.choice(pool) for _ in range(m)]
+    style = rng.choice(["quantiles", "quantiles", "uniform", "given", "categorical", "missing_config"])
+    feats.append(dict(name=j, vals=[fr(v) for v in vals], form=pick_form(rng, vals)))
+    if style == "missing_config":
+      continue
+    cmin = Fraction(rng.randint(-24, 8), 8) if rng.random() < 0.4 else None
+    cmax = Fraction(rng.randint(-8, 24), 8) if rng.random() < 0.4 else None
+    if cmin is not None and cmax is not None and cmin > cmax:
+      cmin, cmax = cmax, cmin
+    dflt = rng.choice(vals) if rng.random() < 0.3 else (Fraction(-977, 8) if rng.random() < 0.2 else None)
+    cfgs.append(dict(name=j, nb=rng.choice([3, 3, 1]) if style == "categorical" else rng.choice([0, 0, None]),
+                     spec=["-3", "0", "3"] if style == "given" else (rng.choice(["quantiles", "uniform"])
+                                                                     if style == "categorical" else style),
+                     k=rng.randint(2, 7), cmin=opt(cmin), cmax=opt(cmax), dflt=opt(dflt)))
+  rng.shuffle(cfgs)
+  return dict(kind="features", cfgs=cfgs, feats=feats, ws=ws,
+              wform=None if ws is None else pick_form(rng, ws), red=rng.choice(["mean", "sum"]),
+              add=rng.random() < 0.5)
+
+
+def feature_cfg_of(case, name):
+  """`_feature_config_by_name` as documented: the config of that name, else the default FeatureConfig"""
+  for c in case["cfgs"]:
+    if c["name"] == name:
+      return c
+  return dict(name=name, nb=0, spec="quantiles", k=10, cmin="none", cmax="none", dflt="none")
+
+
+def real_features(case):
   from tensorflow_lattice.python import premade_lib, configs
-  rng = ctx.rng
-  pending, lines = [], []
-  for _ in range(ncases):
-    m = rng.randint(4, 30)
-    nfeat = rng.randint(1, 3)
-    fcs, feats, expect = [], {}, {}
-    ws = None if rng.random() < 0.5 else [Fraction(rng.randint(0, 4)) for _ in range(m)]
-    if ws is not None and sum(ws) == 0:
-      ws[0] = Fraction(1)
-    red = rng.choice(["mean", "sum"])
-    for j in range(nfeat):
-      name = "x%d" % j
-      vals = [Fraction(rng.randint(-24, 24), 8) for _ in range(m)]
-      style = rng.choice(["quantiles", "uniform", "given", "categorical", "missing_config"])
-      k = rng.randint(2, 6)
-      cmin = Fraction(rng.randint(-24, 0), 8) if rng.random() < 0.4 else None
-      cmax = Fraction(rng.randint(1, 24), 8) if rng.random() < 0.4 else None
-      dflt = rng.choice(vals) if rng.random() < 0.3 else None
-      feats[name] = np.array([float(v) for v in vals])
-      c = dict(kind="filler", vals=[fr(v) for v in vals], ws=None if ws is None else [fr(w) for w in ws], red=red,
-               wk="filler", ck="filler")
-      if style == "categorical":
-        fcs.append(configs.FeatureConfig(name=name, num_buckets=3))
-        expect[name] = ("absent", None)
-      elif style == "given":
-        given = [-3.0, 0.0, 3.0]
-        fcs.append(configs.FeatureConfig(name=name, pwl_calibration_input_keypoints=given))
-        expect[name] = ("given", given)
-      elif style == "missing_config":
-        c.update(k=10, mode="quantiles", cmin="none", cmax="none", dflt="none")
-        expect[name] = ("model", c)
+  f = lambda s: None if unopt(s) is None else float(unopt(s))
+  fcs = [configs.FeatureConfig(
+      name="x%d" % c["name"], num_buckets=c["nb"], pwl_calibration_num_keypoints=c["k"],
+      pwl_calibration_input_keypoints=c["spec"] if isinstance(c["spec"], str) else [float(Fraction(v)) for v in c["spec"]],
+      pwl_calibration_clip_min=f(c["cmin"]), pwl_calibration_clip_max=f(c["cmax"]), default_value=f(c["dflt"]))
+         for c in case["cfgs"]]
+  feats = {"x%d" % ft["name"]: as_input(ft["vals"], ft["form"]) for ft in case["feats"]}
+  ws = None if case["ws"] is None else as_input(case["ws"], case["wform"])
+  try:
+    with warnings.catch_warnings():
+      warnings.simplefilter("ignore")
+      got = premade_lib.compute_feature_keypoints(fcs, feats, weights=ws, weight_reduction=case["red"])
+      premade_lib.set_feature_keypoints(fcs, got, add_missing_feature_configs=case["add"])
+    out = {int(n[1:]): [float(v) for v in kp] for n, kp in got.items()}
+    stored = [(int(fc.name[1:]), fc.pwl_calibration_input_keypoints if isinstance(fc.pwl_calibration_input_keypoints, str)
+               else [float(v) for v in fc.pwl_calibration_input_keypoints]) for fc in fcs]
+    return out, stored, None
+  except Exception as e:
+    return None, None, classify_exc(e)
+
+
+def features_line(case, dirs=None):
+  toks = ["kp.features", "none" if case["ws"] is None else frl([Fraction(w) for w in case["ws"]]), case["red"],
+          "1" if case["add"] else "0", str(len(case["cfgs"])), str(len(case["feats"]))]
+  for c in case["cfgs"]:
+    toks += [str(c["name"]), str(c["nb"] or 0), spec_tok(c["spec"]), str(c["k"]), c["cmin"], c["cmax"], c["dflt"]]
+  for i, ft in enumerate(case["feats"]):
+    toks += [str(ft["name"]), frl([Fraction(v) for v in ft["vals"]]), il((dirs or {}).get(i, ()))]
+  return " ".join(toks)
+
+
+def parse_features_reply(reply, nfeat):
+  toks = reply.split(" ")
+  if toks[0] == "ERR":
+    return dict(err="ERR " + toks[1])
+  per = [None if t == "skip" else parse_rats(t) for t in toks[1:1 + nfeat]]
+  ties = [parse_ints(t) for t in toks[1 + nfeat].split(";")] if nfeat else []
+  plateau = parse_ints(toks[2 + nfeat])
+  stored = []
+  if toks[3 + nfeat] != "_":
+    for ent in toks[3 + nfeat].split(";"):
+      n, sp = ent.split("=")
+      stored.append((int(n), parse_rats(sp[6:]) if sp.startswith("given:") else sp))
+  return dict(err=None, per=per, ties=ties, plateau=plateau, stored=stored)
+
+
+def same_spec(real, model, mode="uniform"):
+  if isinstance(real, str) or isinstance(model, str):
+    return real == model
+  return same(real, model, mode)
+
+
+def err_same(err, merr):
+  return err == merr or (err.startswith("ERR Other") and merr == "ERR Other")
+
+
+def run_features(ctx, cases):
+  reals = [real_features(c) for c in cases]
+  replies = run_driver([features_line(c) for c in cases])
+  retry = []
+  for ci, (case, (out, stored, err), reply) in enumerate(zip(cases, reals, replies)):
+    nfeat = len(case["feats"])
+    mr = parse_features_reply(reply, nfeat)
+    ctx.case(sig=("features", shash(out), shash(case["cfgs"])), nontrivial=bool(out), sample=None)
+    ctx.count("features:w=%s" % ("none" if case["ws"] is None else case["wform"]))
+    # per feature: the compute_keypoints call the helper is documented to make
+    comps = []
+    for ft in case["feats"]:
+      c = feature_cfg_of(case, ft["name"])
+      ctx.count("feature:form=%s" % ft["form"])
+      if c["nb"]:
+        comps.append(("skip", None))
+        ctx.count("feature:categorical")
+      elif not isinstance(c["spec"], str):
+        comps.append(("given", [float(Fraction(v)) for v in c["spec"]]))
+        ctx.count("feature:given")
       else:
-        fcs.append(configs.FeatureConfig(
-            name=name, pwl_calibration_num_keypoints=k, pwl_calibration_input_keypoints=style,
-            pwl_calibration_clip_min=None if cmin is None else float(cmin),
-            pwl_calibration_clip_max=None if cmax is None else float(cmax),
-            default_value=None if dflt is None else float(dflt)))
-        c.update(k=k, mode=style, cmin=opt(cmin), cmax=opt(cmax), dflt=opt(dflt))
-        expect[name] = ("model", c)
-    wsf = None if ws is None else np.array([float(w) for w in ws])
-    try:
-      with warnings.catch_warnings():
-        warnings.simplefilter("ignore")
-        got = premade_lib.compute_feature_keypoints(fcs, feats, weights=wsf, weight_reduction=red)
-        premade_lib.set_feature_keypoints(fcs, got, add_missing_feature_configs=True)
-      err = None
-    except Exception as e:
-      got, err = None, classify_exc(e)
-    for name, (how, c) in expect.items():
-      if how == "model":
-        lines.append(line(c))
-    pending.append(("feature", fcs, expect, got, err))
-    # labels
-    labels = [Fraction(rng.randint(0, 12), 4) for _ in range(m)]
-    init = rng.choice(["quantiles", "uniform", "given"])
-    logits = rng.random() < 0.3
-    k = rng.randint(2, 6)
-    omin = Fraction(0) if rng.random() < 0.4 else None
-    omax = Fraction(3) if rng.random() < 0.4 else None
-    mc = configs.CalibratedLatticeConfig(
-        feature_configs=fcs, output_calibration=True, output_calibration_num_keypoints=k,
-        output_initialization=[0.0, 1.0] if init == "given" else init,
-        output_min=None if omin is None else float(omin), output_max=None if omax is None else float(omax))
-    c = dict(kind="filler_label", vals=[fr(v) for v in labels], ws=None if ws is None else [fr(w) for w in ws],
-             red=red, wk="filler", ck="filler", k=k, mode=init, cmin=opt(omin), cmax=opt(omax), dflt="none")
-    try:
-      with warnings.catch_warnings():
-        warnings.simplefilter("ignore")
-        lk = premade_lib.compute_label_keypoints(mc, np.array([float(v) for v in labels]), logits_output=logits,
-                                                 weights=wsf, weight_reduction=red)
-        premade_lib.set_label_keypoints(mc, lk)
-      lerr = None
-    except Exception as e:
-      lk, lerr = None, classify_exc(e)
-    if init == "given":
-      how = "given"
-    elif logits:
-      how = "linspace"
-      lines.append("kp.linspace -2 2 %d" % k)
-    else:
-      how = "model"
-      lines.append(line(c))
-    pending.append(("label", mc, (how, c), lk, lerr))
-  replies = run_driver(lines)
-  pos = 0
-  for item in pending:
-    if item[0] == "feature":
-      _, fcs, expect, got, err = item
-      key = dict(fn="compute_feature_keypoints", cls="filler")
-      ctx.case(sig=("filler", shash(jsonable(got))), sample=None)
-      byname = {fc.name: fc for fc in fcs}
-      for name, (how, c) in expect.items():
-        if how == "model":
-          reply = replies[pos]
-          pos += 1
-        if err is not None:
-          continue
-        if how == "absent":
-          if name in got:
-            ctx.disagree("fillers", name, got.get(name), None, "categorical feature got keypoints")
-          else:
-            ctx.agree("fillers")
-        elif how == "given":
-          ok = list(got[name]) == c and list(byname[name].pwl_calibration_input_keypoints) == c
-          (ctx.agree("fillers") if ok else ctx.disagree("fillers", name, got[name], c, "given keypoints changed"))
-        else:
-          model, merr, ties, plateau = parse_reply(reply)
-          real = [float(v) for v in got[name]]
-          stored = name in byname and [float(v) for v in byname[name].pwl_calibration_input_keypoints] == real
-          if merr is None and same(real, model, c["mode"]) and stored:
-            ctx.agree("fillers")
-          elif ties or plateau == "1":
-            ctx.count("filler_tie_skipped")
-          else:
-            ctx.disagree("fillers", c, real, reply, "stored=%r" % stored)
-          dist, red_ = prepared(c)
-          oracle(ctx, dict(c), real, None, dist, red_, case_class(c, dist, red_), fn="compute_feature_keypoints")
+        comps.append(("compute", compute_case(ft["vals"], case["ws"], case["red"], c["k"], c["spec"], c["cmin"],
+                                              c["cmax"], c["dflt"], "filler_feature")))
+        ctx.count("feature:%s%s" % (c["spec"], "" if any(x["name"] == ft["name"] for x in case["cfgs"]) else ":no_config"))
+    if err is not None or mr["err"] is not None:
+      if err is not None and mr["err"] is not None and err_same(err, mr["err"]):
+        ctx.agree("fillers")
+      else:
+        ctx.disagree("fillers", case, err or out, reply, "error class")
       if err is not None:
-        ctx.fail("raises", key, dict(kind="filler"), err)
-    else:
-      _, mc, (how, c), lk, lerr = item
-      key = dict(fn="compute_label_keypoints", cls="filler")
-      ctx.case(sig=("filler_label", how, shash(jsonable(lk))), sample=None)
-      reply = None
-      if how in ("model", "linspace"):
-        reply = replies[pos]
-        pos += 1
-      if lerr is not None:
-        ctx.fail("raises", key, c, lerr)
-        continue
-      real = [float(v) for v in lk]
-      stored = [float(v) for v in mc.output_initialization] == real
-      if how == "given":
-        (ctx.agree("fillers") if real == [0.0, 1.0] and stored else ctx.disagree("fillers", c, real, None))
-      elif how == "linspace":
-        model = parse_rats(reply)
-        (ctx.agree("fillers") if same(real, model, "uniform") and stored else ctx.disagree("fillers", c, real, reply))
+        # which feature's computation is of a recorded finding class?
+        key = dict(fn="compute_feature_keypoints", cls="generic", mode="any", weighted=case["ws"] is not None)
+        for how, c in comps:
+          if how == "compute":
+            dist, red_ = prepared(c)
+            cls = case_class(c, dist, red_)
+            if cls in FINDING_CLASSES and (cls != "empty_after_default" or c["mode"] == "uniform"):
+              key.update(cls=cls, mode=c["mode"])
+              break
+        ctx.fail("raises", key, case, err)
+      continue
+    bad, tie_feats = [], []
+    for i, (ft, (how, c)) in enumerate(zip(case["feats"], comps)):
+      real = out.get(ft["name"])
+      model = mr["per"][i]
+      if how == "skip":
+        if real is not None or model is not None:
+          bad.append("categorical feature %d got keypoints" % ft["name"])
+      elif how == "given":
+        if real != c or model is None or not same(real, model, "uniform"):
+          bad.append("given keypoints of feature %d changed" % ft["name"])
       else:
-        model, merr, ties, plateau = parse_reply(reply)
-        if merr is None and same(real, model, c["mode"]) and stored:
-          ctx.agree("fillers")
-        elif ties or plateau == "1":
-          ctx.count("filler_tie_skipped")
-        else:
-          ctx.disagree("fillers", c, real, reply)
-        dist, red_ = prepared(c)
-        oracle(ctx, dict(c), real, None, dist, red_, case_class(c, dist, red_), fn="compute_label_keypoints")
+        if real is None or model is None:
+          bad.append("feature %d missing" % ft["name"])
+        elif not same(real, model, c["mode"]):
+          if mr["ties"][i] and len(mr["ties"][i]) <= 8:
+            tie_feats.append(i)
+          elif mr["plateau"][i] and not grid_exact(prepared(c)[1]):
+            ctx.count("plateau_fragile")
+          else:
+            bad.append("feature %d keypoints differ" % ft["name"])
+        if real is not None:
+          dist, red_ = prepared(c)
+          oracle(ctx, c, real, None, dist, red_, case_class(c, dist, red_), fn="compute_feature_keypoints", record=case)
+    # `set_feature_keypoints`: names in order and what each config now holds
+    if not tie_feats:
+      ok = len(stored) == len(mr["stored"]) and all(
+          a[0] == b[0] and same_spec(a[1], b[1]) for a, b in zip(stored, mr["stored"]))
+      if not ok:
+        bad.append("stored configs differ")
+    # oracle of the filling step, read off the documentation: every computed feature's config holds its keypoints
+    byname = {}
+    for n, sp in stored:
+      byname.setdefault(n, sp)
+    for n, kp in out.items():
+      if n in byname and byname[n] != kp:
+        ctx.fail("config_filled", dict(fn="set_feature_keypoints", cls="filler"), case, stored)
+      if n not in byname and case["add"]:
+        ctx.fail("config_added", dict(fn="set_feature_keypoints", cls="filler"), case, stored)
+    if bad:
+      ctx.disagree("fillers", case, dict(out=out, stored=stored), reply, "; ".join(bad))
+    elif tie_feats:
+      retry.append((ci, tie_feats, mr))
+    else:
+      ctx.agree("fillers")
+  # exact ties: some direction must reproduce the real output (one feature at a time)
+  lines, owners = [], []
+  for ci, tie_feats, mr in retry:
+    for i in tie_feats:
+      k = feature_cfg_of(cases[ci], cases[ci]["feats"][i]["name"])["k"]
+      for bits in itertools.product([-1, 1], repeat=len(mr["ties"][i])):
+        dirs = [0] * k
+        for pos, b in zip(mr["ties"][i], bits):
+          dirs[pos] = b
+        lines.append(features_line(cases[ci], {i: dirs}))
+        owners.append((ci, i))
+  ok = set()
+  for (ci, i), reply in zip(owners, run_driver(lines) if lines else []):
+    m2 = parse_features_reply(reply, len(cases[ci]["feats"]))
+    real = reals[ci][0].get(cases[ci]["feats"][i]["name"])
+    if m2["err"] is None and m2["per"][i] is not None and same(real, m2["per"][i], "quantiles"):
+      ok.add((ci, i))
+  for ci, tie_feats, mr in retry:
+    if all((ci, i) in ok for i in tie_feats):
+      ctx.count("tie_resolved")
+      ctx.agree("fillers")
+    else:
+      ctx.disagree("fillers", cases[ci], reals[ci][0], None, "no tie direction reproduces feature(s) %r" % tie_feats)
+
+
+LABEL_KINDS = ["num", "num", "num", "str", "str", "strlist", "obj", "bytes", "bool"]
+
+
+def gen_label_case(rng):
+  m = rng.randint(1, 30)
+  lkind = rng.choice(LABEL_KINDS)
+  if lkind == "num":
+    pool = [Fraction(rng.randint(0, 12), rng.choice([1, 1, 4])) for _ in range(rng.choice([1, 2, 3, 5, 12]))]
+    labels = [fr(rng.choice(pool)) for _ in range(m)]
+    lform = pick_form(rng, labels)
+  else:
+    ncls = 2 if lkind == "bool" else rng.choice([1, 2, 2, 3, 4, 7])
+    labels = [rng.randrange(ncls) for _ in range(m)]
+    lform = lkind
+  init = rng.choice(["quantiles", "quantiles", "quantiles", "uniform", "uniform", "given", "given_tuple"])
+  omin = Fraction(rng.randint(-4, 8), 4) if rng.random() < 0.4 else None
+  omax = Fraction(rng.randint(0, 16), 4) if rng.random() < 0.4 else None
+  if omin is not None and omax is not None and omin > omax:
+    omin, omax = omax, omin
+  ws = gen_weights(rng, m)
+  return dict(kind="label", lkind="num" if lkind == "num" else "cls", labels=labels, lform=lform,
+              spec=["0", "1"] if init.startswith("given") else init, tuple=init == "given_tuple",
+              k=rng.randint(2, 7), omin=opt(omin), omax=opt(omax), logits=rng.random() < 0.25, ws=ws,
+              wform=None if ws is None else pick_form(rng, ws), red=rng.choice(["mean", "sum"]))
+
+
+def label_input(case):
+  lb, form = case["labels"], case["lform"]
+  if case["lkind"] == "num":
+    return as_input(lb, form)
+  if form == "str":
+    return np.array(["class_%d" % c for c in lb])
+  if form == "strlist":
+    return ["class_%d" % c for c in lb]
+  if form == "obj":
+    return np.array(["class_%d" % c for c in lb], dtype=object)
+  if form == "bytes":
+    return np.array([b"c%d" % c for c in lb])
+  return np.array([bool(c) for c in lb])
+
+
+def real_label(case):
+  from tensorflow_lattice.python import premade_lib, configs
+  f = lambda s: None if unopt(s) is None else float(unopt(s))
+  init = case["spec"]
+  if not isinstance(init, str):
+    init = [float(Fraction(v)) for v in init]
+    init = tuple(init) if case.get("tuple") else init
+  mc = configs.CalibratedLatticeConfig(
+      feature_configs=[configs.FeatureConfig(name="x0")], output_calibration=True,
+      output_calibration_num_keypoints=case["k"], output_initialization=init, output_min=f(case["omin"]),
+      output_max=f(case["omax"]))
+  ws = None if case["ws"] is None else as_input(case["ws"], case["wform"])
+  try:
+    with warnings.catch_warnings():
+      warnings.simplefilter("ignore")
+      lk = premade_lib.compute_label_keypoints(mc, label_input(case), logits_output=case["logits"], weights=ws,
+                                               weight_reduction=case["red"])
+      premade_lib.set_label_keypoints(mc, lk)
+    return [float(v) for v in lk], [float(v) for v in mc.output_initialization], None
+  except Exception as e:
+    return None, None, classify_exc(e)
+
+
+def label_line(case, dirs=()):
+  return "kp.label %s %s %s %d %s %s %s %s %s %s" % (
+      case["lkind"], frl([Fraction(v) for v in case["labels"]]) if case["lkind"] == "num" else il(case["labels"]),
+      spec_tok(case["spec"]), case["k"], case["omin"], case["omax"], "1" if case["logits"] else "0",
+      "none" if case["ws"] is None else frl([Fraction(w) for w in case["ws"]]), case["red"], il(dirs))
+
+
+def parse_label_reply(reply):
+  toks = reply.split(" ")
+  if toks[0] == "ERR":
+    return None, "ERR " + toks[1], parse_ints(toks[2]), toks[3], None
+  sp = toks[3]
+  return parse_rats(toks[0]), None, parse_ints(toks[1]), toks[2], parse_rats(sp[6:]) if sp.startswith("given:") else sp
+
+
+def label_compute_case(case):
+  """documented behaviour: non-numeric labels count as `arange(n_classes)` WITHOUT weights"""
+  if case["lkind"] == "num":
+    vals, ws = case["labels"], case["ws"]
+  else:
+    vals, ws = [fr(i) for i in range(len(set(case["labels"])))], None
+  return compute_case(vals, ws, case["red"], case["k"], case["spec"], case["omin"], case["omax"], "none", "filler_label")
+
+
+def run_labels(ctx, cases):
+  reals = [real_label(c) for c in cases]
+  replies = run_driver([label_line(c) for c in cases])
+  retry = []
+  for ci, (case, (lk, stored, err), reply) in enumerate(zip(cases, reals, replies)):
+    model, merr, ties, plateau, mstored = parse_label_reply(reply)
+    how = "given" if not isinstance(case["spec"], str) else ("logits" if case["logits"] else "compute")
+    ctx.case(sig=("label", how, case["lform"], shash(lk)), nontrivial=how != "given", sample=None)
+    ctx.count("label:%s" % how)
+    ctx.count("label:labels=%s" % case["lform"])
+    ctx.count("label:w=%s" % ("none" if case["ws"] is None else case["wform"]))
+    key = dict(fn="compute_label_keypoints", cls="generic", mode=case["spec"] if how == "compute" else how,
+               weighted=case["ws"] is not None and case["lkind"] == "num", labels=case["lform"])
+    c = label_compute_case(case) if how == "compute" else None
+    if c is not None:
+      dist, red_ = prepared(c)
+      key["cls"] = case_class(c, dist, red_)
+    if err is not None or merr is not None:
+      if err is not None and merr is not None and err_same(err, merr):
+        ctx.agree("fillers")
+      else:
+        ctx.disagree("fillers", case, err or lk, reply, "error class")
+      if err is not None:
+        ctx.fail("raises", key, case, err)
+      continue
+    if stored != lk:
+      ctx.fail("config_filled", dict(fn="set_label_keypoints", cls="filler"), case, stored)
+    okm = same(lk, model, "uniform" if how != "compute" else c["mode"]) and same_spec(stored, mstored)
+    if how == "given":
+      if lk != [float(Fraction(v)) for v in case["spec"]]:
+        ctx.fail("given_passed_through", key, case, lk)
+      (ctx.agree("fillers") if okm else ctx.disagree("fillers", case, lk, reply))
+      continue
+    if okm:
+      ctx.agree("fillers")
+    elif how == "compute" and ties and len(ties) <= 8:
+      retry.append((ci, ties))
+    elif how == "compute" and plateau == "1" and not grid_exact(red_):
+      ctx.count("plateau_fragile")
+    else:
+      ctx.disagree("fillers", case, lk, reply)
+    if how == "logits":
+      # the same rules on the documented range [-2, 2]
+      lc = compute_case(["-2", "2"], None, case["red"], case["k"], "uniform", "none", "none", "none", "filler_logits")
+      oracle(ctx, lc, lk, None, [Fraction(-2), Fraction(2)], [1, 1], "generic", fn="compute_label_keypoints", record=case)
+    else:
+      oracle(ctx, c, lk, None, dist, red_, key["cls"], fn="compute_label_keypoints", record=case)
+  lines, owners = [], []
+  for ci, ties in retry:
+    for bits in itertools.product([-1, 1], repeat=len(ties)):
+      dirs = [0] * cases[ci]["k"]
+      for pos, b in zip(ties, bits):
+        dirs[pos] = b
+      lines.append(label_line(cases[ci], dirs))
+      owners.append(ci)
+  ok = set()
+  for ci, reply in zip(owners, run_driver(lines) if lines else []):
+    model, merr, _, _, _ = parse_label_reply(reply)
+    if merr is None and same(reals[ci][0], model, "quantiles"):
+      ok.add(ci)
+  for ci, ties in retry:
+    if ci in ok:
+      ctx.count("tie_resolved")
+      ctx.agree("fillers")
+    else:
+      ctx.disagree("fillers", cases[ci], reals[ci][0], None, "no tie direction reproduces the labels' keypoints")
 
 
 def run(ctx):
   cases = [gen_case(ctx.rng) for _ in range(ctx.n(700, 15000))]
   run_compute(ctx, cases)
-  run_fillers(ctx, ctx.n(60, 1000))
+  run_features(ctx, [gen_feature_case(ctx.rng) for _ in range(ctx.n(300, 2000))])
+  run_labels(ctx, [gen_label_case(ctx.rng) for _ in range(ctx.n(400, 3000))])
 
 
 def replay(ctx, failure):
   case = failure["case"]
+  if case.get("kind") == "features":
+    return run_features(ctx, [case])
+  if case.get("kind") == "label":
+    return run_labels(ctx, [case])
   if "vals" not in case:
     return
   case.setdefault("kind", "replay")
